@@ -10,6 +10,41 @@ for p in props:
         anch.setdefault(f,set()).add(p['id'])
 apply='--apply' in sys.argv
 total=0
+if '--cone' in sys.argv:
+    # tags follow static calls: what a function tagged P calls (directly, through closures, or through functions without a
+    # contract) is part of P's cone.  Edges come from "gocv calls"; interface dispatch is not followed.
+    import subprocess,collections
+    edges=collections.defaultdict(set)
+    for l in subprocess.run(['/verif/gocv/gocv','calls'],capture_output=True,text=True).stdout.split('\n'):
+        if '\t' in l:
+            a,b=l.split('\t'); edges[a].add(b)
+    def key(cf,name):
+        d=os.path.dirname(cf)[len('/repo/lib/'):]
+        return d+'.'+name
+    tags=collections.defaultdict(set); where={}
+    files={}
+    for cf in sorted(glob.glob('/repo/lib/**/zz_contracts_verif.go',recursive=True)):
+        lines=open(cf).read().split('\n'); files[cf]=lines
+        for i,l in enumerate(lines):
+            m=re.match(r'//@ func (.+)$',l)
+            if m and i+1<len(lines) and lines[i+1].startswith('//@   property'):
+                k=key(cf,m.group(1).strip()); where[k]=(cf,i+1); tags[k]=set(lines[i+1].split()[2:])
+    work=list(tags)
+    while work:
+        f=work.pop()
+        for g in edges.get(f,()):
+            add=(tags[f]&claimed)-tags[g]
+            if add:
+                tags[g]|=add; work.append(g)
+    for k,(cf,i) in sorted(where.items()):
+        have=set(files[cf][i].split()[2:])
+        miss=sorted(tags[k]-have)
+        if miss:
+            total+=len(miss); print(k,'+',' '.join(miss))
+            if apply: files[cf][i]=files[cf][i].rstrip()+' '+' '.join(miss)
+    if apply:
+        for cf,lines in files.items(): open(cf,'w').write('\n'.join(lines))
+    print('missing cone tags:',total); sys.exit(0)
 for cf in sorted(glob.glob('/repo/lib/**/zz_contracts_verif.go',recursive=True)):
     d=os.path.dirname(cf)
     srcs={f:open(f).read() for f in glob.glob(d+'/*.go') if not f.endswith('_test.go') and not f.endswith('zz_contracts_verif.go')}
